@@ -17,7 +17,8 @@ def fn_shas(vc, features=None, no_default=None):
         unit.no_default = no_default
     src, _ = extract.expand(unit.features, unit.no_default)
     try:
-        out, log = extract.assemble(unit, src)
+        with extract._ASSEMBLE_LOCK:
+            out, log = extract.assemble(unit, src)
     except extract.Undecided as e:
         return None, str(e)
     return {f['fn']: f['src_sha'] for f in log if not f.get('external_body')}, None
